@@ -103,7 +103,10 @@ Inductive node :=
 | NFile (i : nat)                                   (* inode number; content in the table *)
 | NSym (disp : str) (abs : bool) (cs : list comp).  (* readlink text, and how the kernel walks it *)
 
-Record fsys := mkFS { ents : list (path * node); cont : list (nat * N); nexti : nat }.
+(* cont: per inode, content tag * 1024 + permission bits; dmode: permission bits of
+   directories by location (latest entry wins, default 0755) *)
+Record fsys := mkFS { ents : list (path * node); cont : list (nat * N); nexti : nat;
+                      dmode : list (path * N) }.
 
 Fixpoint lookup_ents (l : list (path * node)) (p : path) : option node :=
   match l with
@@ -119,28 +122,41 @@ Fixpoint lookup_cont (l : list (nat * N)) (i : nat) : N :=
   end.
 Definition content (f : fsys) (i : nat) : N := lookup_cont (cont f) i.
 
+Fixpoint lookup_dmode (l : list (path * N)) (p : path) : N :=
+  match l with
+  | [] => 493%N
+  | (q, m) :: r => if path_eqb q p then m else lookup_dmode r p
+  end.
+Definition dir_mode (f : fsys) (p : path) : N := lookup_dmode (dmode f) p.
+
+Definition enc (tag mode : N) : N := (tag * 1024 + mode)%N.
+
 Definition del_ents (l : list (path * node)) (p : path) : list (path * node) :=
   filter (fun e => negb (path_eqb (fst e) p)) l.
 
 Definition set_ent (p : path) (n : node) (f : fsys) : fsys :=
-  mkFS ((p, n) :: del_ents (ents f) p) (cont f) (nexti f).
+  mkFS ((p, n) :: del_ents (ents f) p) (cont f) (nexti f) (dmode f).
 Definition del_ent (p : path) (f : fsys) : fsys :=
-  mkFS (del_ents (ents f) p) (cont f) (nexti f).
+  mkFS (del_ents (ents f) p) (cont f) (nexti f) (dmode f).
 Definition set_cont (i : nat) (c : N) (f : fsys) : fsys :=
-  mkFS (ents f) ((i, c) :: cont f) (nexti f).
+  mkFS (ents f) ((i, c) :: cont f) (nexti f) (dmode f).
 Definition new_file (p : path) (c : N) (f : fsys) : fsys :=
-  mkFS ((p, NFile (nexti f)) :: del_ents (ents f) p) ((nexti f, c) :: cont f) (S (nexti f)).
+  mkFS ((p, NFile (nexti f)) :: del_ents (ents f) p) ((nexti f, c) :: cont f) (S (nexti f)) (dmode f).
+Definition set_dmode (p : path) (m : N) (f : fsys) : fsys :=
+  mkFS (ents f) (cont f) (nexti f) ((p, m) :: dmode f).
+Definition new_dir (p : path) (m : N) (f : fsys) : fsys :=
+  set_dmode p (N.land m 493) (set_ent p NDir f).   (* umask 022 *)
 
 Definition has_child (f : fsys) (p : path) : bool :=
   existsb (fun e => match strip_prefix p (fst e) with Some (_ :: _) => true | _ => false end) (ents f).
 
 (* what an observer sees at a location *)
-Inductive view := VNone | VDir | VFile (c : N) | VSym (d : str).
+Inductive view := VNone | VDir (m : N) | VFile (c : N) | VSym (d : str).
 Definition view_at (f : fsys) (p : path) : view :=
   match lookup f p with
   | None => VNone
-  | Some NDir => VDir
-  | Some (NFile i) => VFile (content f i)
+  | Some NDir => VDir (dir_mode f p)
+  | Some (NFile i) => VFile (content f i)      (* content tag and permission bits *)
   | Some (NSym d _ _) => VSym d
   end.
 
@@ -193,28 +209,36 @@ Definition awalk (f : fsys) (ns : list name) (follow : bool) : wres :=
 (* ---------- system calls used by the store ---------- *)
 
 (* os.MkdirAll on an absolute path with raw components *)
-Fixpoint mkdir_prefixes (f : fsys) (done todo : list comp) : option fsys :=
+Fixpoint mkdir_prefixes (f : fsys) (done todo : list comp) (m : N) : option fsys :=
   match todo with
   | [] => Some f
   | c :: r =>
     let pre := done ++ [c] in
     match walk FUEL f NLINK [] pre true with
-    | WDir _ => mkdir_prefixes f pre r
+    | WDir _ => mkdir_prefixes f pre r m
     | WFile _ _ => None
     | _ =>
       match walk FUEL f NLINK [] pre false with
-      | WNoEnt p => mkdir_prefixes (set_ent p NDir f) pre r
+      | WNoEnt p => mkdir_prefixes (new_dir p m f) pre r m
       | _ => None
       end
     end
   end.
-Definition mkdir_all (f : fsys) (cs : list comp) : option fsys := mkdir_prefixes f [] cs.
+Definition mkdir_all (f : fsys) (cs : list comp) (m : N) : option fsys := mkdir_prefixes f [] cs m.
 
 (* open(O_WRONLY|O_CREAT|O_TRUNC) + write, absolute path with raw components *)
-Definition write_at (f : fsys) (cs : list comp) (c : N) : option fsys :=
+Definition write_at (f : fsys) (cs : list comp) (c m : N) : option fsys :=
   match walk FUEL f NLINK [] cs true with
-  | WFile _ i => Some (set_cont i c f)
-  | WNoEnt p => Some (new_file p c f)
+  | WFile _ i => Some (set_cont i (enc c (content f i mod 1024)) f)   (* mode of an existing file stays *)
+  | WNoEnt p => Some (new_file p (enc c (N.land m 493)) f)
+  | _ => None
+  end.
+
+(* os.Chmod (follows links) *)
+Definition chmod_at (f : fsys) (ns : list name) (m : N) : option fsys :=
+  match awalk f ns true with
+  | WFile _ i => Some (set_cont i (enc (content f i / 1024) m) f)
+  | WDir p => Some (set_dmode p m f)
   | _ => None
   end.
 
@@ -293,14 +317,14 @@ Definition ensure_link (f : fsys) (dp fp : list name) (target : str) : option (l
   end.
 
 Inductive entry :=
-| EReg (nm : str) (c : N)
-| EDir (nm : str)
+| EReg (nm : str) (c : N) (m : N)
+| EDir (nm : str) (m : N)
 | EHard (nm tgt : str)
 | ESym (nm tgt : str)
 | EOther (nm : str).
 
 Definition entry_name (e : entry) : str :=
-  match e with EReg n _ => n | EDir n => n | EHard n _ => n | ESym n _ => n | EOther n => n end.
+  match e with EReg n _ _ => n | EDir n _ => n | EHard n _ => n | ESym n _ => n | EOther n => n end.
 
 Definition sym_node (g : cfg) (tgt : str) : node :=
   if fixC g then
@@ -338,7 +362,13 @@ Definition do_link (g : cfg) (f : fsys) (cwd : path) (fp pn : list name) (tgt : 
   | _ => None
   end.
 
-Definition extract_entry (g : cfg) (cwd : path) (dp : list name) (dirName : str) (f : fsys) (e : entry)
+Definition chmod_if (pres : bool) (r : option fsys) (fp : list name) (m : N) : option fsys :=
+  match r with
+  | Some f1 => if pres then chmod_at f1 fp m else Some f1
+  | None => None
+  end.
+
+Definition extract_entry (g : cfg) (pres : bool) (cwd : path) (dp : list name) (dirName : str) (f : fsys) (e : entry)
   : option fsys :=
   match resolve_rel f dp dirName (entry_name e) with
   | None => None
@@ -346,8 +376,8 @@ Definition extract_entry (g : cfg) (cwd : path) (dp : list name) (dirName : str)
     let fp := dp ++ rel in
     let self := match rel with [] => fixR g | _ => false end in
     match e with
-    | EReg _ c => write_at f (Nms fp) c
-    | EDir _ => mkdir_all f (Nms fp)
+    | EReg _ c m => chmod_if pres (write_at f (Nms fp) c m) fp m
+    | EDir _ m => chmod_if pres (mkdir_all f (Nms fp) m) fp m
     | EHard _ tgt =>
       if self then None else
       match ensure_link f dp fp tgt with
@@ -365,14 +395,14 @@ Definition extract_entry (g : cfg) (cwd : path) (dp : list name) (dirName : str)
   end.
 
 (* extraction stops at the first error; effects of earlier entries stay *)
-Fixpoint extract (g : cfg) (cwd : path) (dp : list name) (dirName : str) (f : fsys) (es : list entry)
+Fixpoint extract (g : cfg) (pres : bool) (cwd : path) (dp : list name) (dirName : str) (f : fsys) (es : list entry)
   : fsys * bool :=
   match es with
   | [] => (f, true)
   | e :: r =>
-    match extract_entry g cwd dp dirName f e with
+    match extract_entry g pres cwd dp dirName f e with
     | None => (f, false)
-    | Some f' => extract g cwd dp dirName f' r
+    | Some f' => extract g pres cwd dp dirName f' r
     end
   end.
 
@@ -404,7 +434,7 @@ Fixpoint all_real (f : fsys) (cur : path) (qs : list name) : bool :=
 
 Record store := mkStore { st_fs : fsys; st_names : list str }.
 
-Definition push (g : cfg) (wd cwd : path) (s : store) (o : pushop) : store * bool :=
+Definition push (g : cfg) (pres : bool) (wd cwd : path) (s : store) (o : pushop) : store * bool :=
   let title := push_title o in
   match title with
   | [] => (s, true)      (* no name: fallback storage, no file-system effect *)
@@ -416,17 +446,17 @@ Definition push (g : cfg) (wd cwd : path) (s : store) (o : pushop) : store * boo
     let f := st_fs s in
     match o with
     | PBlob _ c =>
-      match mkdir_all f (Nms (clean_abs (removelast raw))) with
+      match mkdir_all f (Nms (clean_abs (removelast raw))) 511 with
       | None => (s, false)
       | Some f1 =>
-        match write_at f1 raw c with
+        match write_at f1 raw c 438 with
         | None => (mkStore f1 (st_names s), false)
         | Some f2 => (mkStore f2 (title :: st_names s), true)
         end
       end
     | PDir _ es =>
       let dp := clean_abs raw in
-      match mkdir_all f raw with
+      match mkdir_all f raw 511 with
       | None => (s, false)
       | Some f1 =>
         let okd := if fixD g then
@@ -436,18 +466,18 @@ Definition push (g : cfg) (wd cwd : path) (s : store) (o : pushop) : store * boo
                      end
                    else true in
         if negb okd then (mkStore f1 (st_names s), false) else
-        let '(f2, ok) := extract g cwd dp title f1 es in
+        let '(f2, ok) := extract g pres cwd dp title f1 es in
         (mkStore f2 (if ok then title :: st_names s else st_names s), ok)
       end
     end
   end
   end.
 
-Fixpoint pushes (g : cfg) (wd cwd : path) (s : store) (os : list pushop) : store * list bool :=
+Fixpoint pushes (g : cfg) (pres : bool) (wd cwd : path) (s : store) (os : list pushop) : store * list bool :=
   match os with
   | [] => (s, [])
   | o :: r =>
-    let '(s1, ok) := push g wd cwd s o in
-    let '(s2, oks) := pushes g wd cwd s1 r in
+    let '(s1, ok) := push g pres wd cwd s o in
+    let '(s2, oks) := pushes g pres wd cwd s1 r in
     (s2, ok :: oks)
   end.
